@@ -22,6 +22,12 @@
  *        MSG <escaped message>
  *   gmp                 what GMP and glibc do with the bytes as one token (tie of coq/ParseTotal/Gmp621.v):
  *        GMP f=<mpf_set_str==0> q=<mpq_set_str==0> num=<n> den=<d> d=<sscanf %d|-> ld=<sscanf %ld|-> atoi=<n> mul=<(long)(atoi*LOG2_10)>
+ *            pl=<v|-> pd=<v|-> pp=<v|-> pq=<v|-> mulq=<(long)(pq*LOG2_10)|-> pn=<v|->
+ *        the second line of fields only with -DC09_HAVE_PARSE_LONG (the check defines it when common/utils.c has
+ *        mps_utils_parse_long): the value it stores, or '-' when it refuses, for the five ranges used by the parsers:
+ *        pl LONG_MIN..LONG_MAX (sparse indices), pd 1..INT_MAX-1 (Degree=), pp 1..INT_MAX (Precision=),
+ *        pq LONG_MIN..LONG_MAX/4 (2.x precision word; mulq = that long times LOG2_10, as `prec *= LOG2_10`),
+ *        pn 0..INT_MAX-1 (2.x degree word)
  */
 #define _GNU_SOURCE
 #include <mps/mps.h>
@@ -35,6 +41,7 @@
 #include <sys/stat.h>
 #include <fcntl.h>
 #include <ctype.h>
+#include <limits.h>
 #include <sys/resource.h>
 
 #define C09_ALARM 5
@@ -248,7 +255,29 @@ run_case (const char *mode, const char *path)
       else fprintf (RES, " num=- den=-");
       if (sscanf (t, "%d", &d) == 1) fprintf (RES, " d=%d", d); else fprintf (RES, " d=-");
       if (sscanf (t, "%ld", &ld) == 1) fprintf (RES, " ld=%ld", ld); else fprintf (RES, " ld=-");
-      { int a = atoi (t); long m = a * LOG2_10; fprintf (RES, " atoi=%d mul=%ld\n", a, m); }
+      { int a = atoi (t); long m = a * LOG2_10; fprintf (RES, " atoi=%d mul=%ld", a, m); }
+#ifdef C09_HAVE_PARSE_LONG
+      {
+        static const char *nm[5] = { "pl", "pd", "pp", "pq", "pn" };
+        const long lo[5] = { LONG_MIN, 1, 1, LONG_MIN, 0 };
+        const long hi[5] = { LONG_MAX, INT_MAX - 1, INT_MAX, LONG_MAX / 4, INT_MAX - 1 };
+        int k;
+        for (k = 0; k < 5; k++)
+          {
+            long v = 77;          /* left untouched on refusal */
+            if (mps_utils_parse_long (t, lo[k], hi[k], &v)) fprintf (RES, " %s=%ld", nm[k], v);
+            else if (v == 77) fprintf (RES, " %s=-", nm[k]);
+            else fprintf (RES, " %s=touched", nm[k]);
+            if (k == 3)
+              {
+                long q = 77;
+                if (mps_utils_parse_long (t, lo[k], hi[k], &q)) { q *= LOG2_10; fprintf (RES, " mulq=%ld", q); }
+                else fprintf (RES, " mulq=-");
+              }
+          }
+      }
+#endif
+      fprintf (RES, "\n");
     }
   else
     {
